@@ -22,7 +22,9 @@ TARGETS = ['selfies/grammar_rules.py::next_atom_state',
            'selfies/utils/smiles_utils.py::bond_to_smiles',
            'selfies/bond_constraints.py::get_bonding_capacity',
            'selfies/decoder.py::_form_rings_bilocally',
-           'selfies/mol_graph.py::Atom.bonding_capacity']
+           'selfies/mol_graph.py::Atom.bonding_capacity',
+           'selfies/grammar_rules.py::process_atom_symbol',
+           'selfies/grammar_rules.py::_process_atom_selfies_no_cache']
 EXPLANATION = (
     "Mixed. PROVED (deductive, all inputs and all tables - the capacity is a symbolic integer): the clip clauses of "
     "the state functions (bond order <= requested, <= state, <= capacity of the new atom; branch split "
